@@ -308,3 +308,146 @@ pub fn encode_frame<W: std::io::Write>(
 ) -> Result<(), crate::EncodingError> {
     crate::encoder::verif_encode_frame(writer, data, width, height, color, use_predictor_transform)
 }
+
+// ---------------------------------------------------------------------------------------------
+// Lossless (VP8L) decoder components: LosslessDecoder, BitReader, HuffmanTree, inverse transforms
+// ---------------------------------------------------------------------------------------------
+
+/// `LosslessDecoder::new(r).decode_frame(width, height, implicit_dimensions, buf)` on any `BufRead`
+pub fn vp8l_decode_reader<R: std::io::BufRead>(
+    r: R,
+    width: u32,
+    height: u32,
+    implicit_dimensions: bool,
+    buf: &mut [u8],
+) -> Result<(), crate::DecodingError> {
+    crate::lossless::LosslessDecoder::new(r).decode_frame(width, height, implicit_dimensions, buf)
+}
+
+/// One step of a `BitReader` script.
+#[derive(Clone, Copy, Debug)]
+pub enum BitOp {
+    /// `fill()`
+    Fill,
+    /// `read_bits::<u32>(n)`
+    ReadBits(u8),
+    /// `consume(n)`
+    Consume(u8),
+    /// `let v = peek(n); consume(n)?; v`
+    Take(u8),
+}
+
+/// Runs a script on a fresh `BitReader` over `r`. Returns the values delivered, the outcome
+/// (`Ok((buffer, nbits))` or the first error) and the reader.
+pub fn bitreader_script<R: std::io::BufRead>(
+    r: R,
+    ops: &[BitOp],
+) -> (Vec<u64>, Result<(u64, u8), crate::DecodingError>, Option<R>) {
+    let mut br = crate::lossless::BitReader::verif_new(r);
+    let mut vals = Vec::new();
+    for op in ops {
+        let res = match *op {
+            BitOp::Fill => br.fill(),
+            BitOp::ReadBits(n) => br.read_bits::<u32>(n).map(|v| vals.push(u64::from(v))),
+            BitOp::Consume(n) => br.consume(n),
+            BitOp::Take(n) => {
+                let v = br.peek(n);
+                br.consume(n).map(|()| vals.push(v))
+            }
+        };
+        if let Err(e) = res {
+            return (vals, Err(e), None);
+        }
+    }
+    let (r, buffer, nbits) = br.verif_into_parts();
+    (vals, Ok((buffer, nbits)), Some(r))
+}
+
+/// A prefix-code table: `HuffmanTree::build_implicit` / `build_two_node`.
+pub struct Huff(crate::huffman::HuffmanTree);
+
+pub fn huff_build_implicit(code_lengths: Vec<u16>) -> Result<Huff, crate::DecodingError> {
+    crate::huffman::HuffmanTree::build_implicit(code_lengths).map(Huff)
+}
+
+pub fn huff_build_two_node(zero: u16, one: u16) -> Huff {
+    Huff(crate::huffman::HuffmanTree::build_two_node(zero, one))
+}
+
+/// `count` times: `fill()`, `peek_symbol`, `read_symbol` on a `BitReader` over `bits`. Per step three numbers:
+/// peeked length (-1 when `None`), peeked symbol, symbol read. Stops at the first error.
+pub fn huff_decode(h: &Huff, bits: &[u8], count: usize) -> (Vec<i32>, Result<(), crate::DecodingError>) {
+    let mut br = crate::lossless::BitReader::verif_new(std::io::Cursor::new(bits));
+    let mut out = Vec::new();
+    for _ in 0..count {
+        if let Err(e) = br.fill() {
+            return (out, Err(e));
+        }
+        let pk = h.0.peek_symbol(&br);
+        match h.0.read_symbol(&mut br) {
+            Ok(s) => {
+                match pk {
+                    Some((b, ps)) => {
+                        out.push(i32::from(b));
+                        out.push(i32::from(ps));
+                    }
+                    None => {
+                        out.push(-1);
+                        out.push(-1);
+                    }
+                }
+                out.push(i32::from(s));
+            }
+            Err(e) => return (out, Err(e)),
+        }
+    }
+    (out, Ok(()))
+}
+
+/// `lossless_transform::apply_predictor_transform`
+pub fn tr_predictor(
+    image_data: &mut [u8],
+    width: u16,
+    height: u16,
+    size_bits: u8,
+    predictor_data: &[u8],
+) -> Result<(), crate::DecodingError> {
+    crate::lossless_transform::apply_predictor_transform(image_data, width, height, size_bits, predictor_data)
+}
+
+/// `lossless_transform::apply_predictor_transform_<k>` on a byte range
+pub fn tr_predictor_k(k: u8, image_data: &mut [u8], range: std::ops::Range<usize>, width: usize) {
+    use crate::lossless_transform as t;
+    match k {
+        0 => t::apply_predictor_transform_0(image_data, range, width),
+        1 => t::apply_predictor_transform_1(image_data, range, width),
+        2 => t::apply_predictor_transform_2(image_data, range, width),
+        3 => t::apply_predictor_transform_3(image_data, range, width),
+        4 => t::apply_predictor_transform_4(image_data, range, width),
+        5 => t::apply_predictor_transform_5(image_data, range, width),
+        6 => t::apply_predictor_transform_6(image_data, range, width),
+        7 => t::apply_predictor_transform_7(image_data, range, width),
+        8 => t::apply_predictor_transform_8(image_data, range, width),
+        9 => t::apply_predictor_transform_9(image_data, range, width),
+        10 => t::apply_predictor_transform_10(image_data, range, width),
+        11 => t::apply_predictor_transform_11(image_data, range, width),
+        12 => t::apply_predictor_transform_12(image_data, range, width),
+        13 => t::apply_predictor_transform_13(image_data, range, width),
+        _ => {}
+    }
+}
+
+/// `lossless_transform::apply_color_transform`
+pub fn tr_color(image_data: &mut [u8], width: u16, size_bits: u8, transform_data: &[u8]) {
+    crate::lossless_transform::apply_color_transform(image_data, width, size_bits, transform_data);
+}
+
+/// `lossless_transform::apply_subtract_green_transform`
+pub fn tr_subtract_green(image_data: &mut [u8]) {
+    crate::lossless_transform::apply_subtract_green_transform(image_data);
+}
+
+/// `lossless_transform::apply_color_indexing_transform`
+pub fn tr_color_indexing(image_data: &mut [u8], width: u16, height: u16, table_size: u16, table_data: &[u8]) {
+    crate::lossless_transform::apply_color_indexing_transform(image_data, width, height, table_size, table_data);
+}
